@@ -47,7 +47,7 @@ ANCHORS = ['pfhedge.nn.functional:bs_european_delta',
            'pfhedge._utils.parse:parse_volatility']
 DECIDING = ["greek.far_otm_zero", "greek.broadcast_invariant", "greek.args_untouched", "greek.alias_invariant", "module.forward_is_delta", "greek.european", "greek.european_binary", "greek.american_binary", "greek.lookback", "autogreek.delta", "autogreek.gamma",
             "autogreek.vega", "autogreek.theta", "autogreek.gamma_from_delta"]
-REQUIRED_BRANCHES = ["t!=1", "K!=1", "put", "american_binary.reached_spot_below", "via.module", "via.functional", "alias.spot_at_running_max", "autogreek.create_graph", "greek.broadcast", "tie.spot_at_running_max", "far_out_of_the_money"]
+REQUIRED_BRANCHES = ["t!=1", "K!=1", "put", "american_binary.reached_spot_below", "via.module", "via.functional", "alias.spot_at_running_max", "autogreek.create_graph", "greek.broadcast", "tie.spot_at_running_max", "far_out_of_the_money", "autogreek.keyword_only_pricer"]
 
 N = 24
 
@@ -371,6 +371,23 @@ def drv_autogreek(ctx, k, rng):
 
     pricer = {"spot_vol": pricer_spot_vol, "mon_var": pricer_mon_var, "logmon_vol": pricer_logmon_vol, "spot_var": pricer_spot_var,
               "mon_vol": pricer_mon_vol}[psig]
+    style = pick(rng, ["plain", "plain", "keyword_only", "partial"])
+    if style != "plain":
+        # the same pricer with keyword-only parameters (written with `*`, or produced by functools.partial fixing a middle argument by keyword): the
+        # automatic Greeks hand over exactly the parameters the signature names, whatever their kind
+        import functools
+        import inspect as _inspect
+
+        names_ = list(_inspect.signature(pricer).parameters)
+        base_pricer = pricer
+        if style == "keyword_only":
+            first, rest = names_[0], names_[1:]
+            ns = {"base": base_pricer}
+            exec(f"def kwo({first}, *, {', '.join(rest)}):\n    return base({', '.join(names_)})", ns)
+            pricer = ns["kwo"]
+        else:
+            pricer = functools.partial(base_pricer, **{names_[1]: None})  # the fixed value is overridden by the caller's keyword; the rest become keyword-only
+        ctx.branch("autogreek.keyword_only_pricer")
     params = {"time_to_maturity": tau.clone(), "strike": K.clone()}
     if spotform == "spot":
         params["spot"] = S.clone()
